@@ -99,6 +99,19 @@ func flattenInputs(circ *circuit.Circuit, vals []*big.Int) []*big.Int {
 }
 
 // c05OneV: one program, one input pair (one string per argument member), both modes
+// c05SourceFile, when set, is where the program of the next c05OneV calls lives (streamSourceName follows it)
+var c05SourceFile string
+
+// c05NativeTemplates: native circuits called directly, with full-width run-time arguments, with constants narrower than
+// the circuit's input, after other operations have used the circuit-local wires
+var c05NativeTemplates = []string{
+	"package main\n\nfunc main(a, b uint64) uint64 {\n\tx := uint32(a) + uint32(b)\n\ts := native(\"add64.circ\", a ^ b, 5)\n\treturn s + uint64(x)\n}\n",
+	"package main\n\nfunc main(a, b uint64) uint64 {\n\tx := uint16(a) * uint16(b)\n\td := native(\"sub64.circ\", a | b, 1)\n\treturn d ^ uint64(x)\n}\n",
+	"package main\n\nfunc main(a, b uint64) uint64 {\n\treturn native(\"mul64.circ\", a, b) + native(\"add64.circ\", a, 3)\n}\n",
+	"package main\n\nfunc main(a, b uint64) uint64 {\n\tvar five uint8 = 5\n\tx := a - b\n\treturn native(\"add64.circ\", x, uint64(five)) + native(\"sub64.circ\", 7, b)\n}\n",
+	"package main\n\nfunc main(a, b uint64) uint64 {\n\treturn native(\"div64.circ\", a, b | 1)\n}\n",
+}
+
 func c05OneV(res *Result, src string, xv, yv []string, record *[]stEv, seedv uint64, wire ...*[]swEv) {
 	xs, ys := strings.Join(xv, ","), strings.Join(yv, ",")
 	// unsized arguments (uint, []byte ...) are instantiated from the sizes of the inputs, as apps/garbled does it:
@@ -111,7 +124,16 @@ func c05OneV(res *Result, src string, xv, yv []string, record *[]stEv, seedv uin
 	}
 	params := utils.NewParams()
 	params.MPCLCErrorLoc = false
-	circ, _, err := compiler.New(params).Compile(src, sizes)
+	var circ *circuit.Circuit
+	var err error
+	if c05SourceFile != "" {
+		// a program that lives in a directory (native circuit files are resolved relative to the source file)
+		if err = os.WriteFile(c05SourceFile, []byte(src), 0644); err == nil {
+			circ, _, err = compiler.New(params).CompileFile(c05SourceFile, sizes)
+		}
+	} else {
+		circ, _, err = compiler.New(params).Compile(src, sizes)
+	}
 	if err != nil {
 		res.Sample = "compile: " + err.Error()
 		res.Class = "rejected"
@@ -535,6 +557,44 @@ func c05Main(args []string) error {
 		}
 		idx++
 		out.put(res)
+	}
+	// native circuits (resolved next to the source file: a scratch directory with copies of pkg/math's circuit files)
+	if dir, err := os.MkdirTemp("", "vh-native-"); err == nil {
+		repo := os.Getenv("VERIF_REPO")
+		if repo == "" {
+			repo = "/repo"
+		}
+		ok := true
+		for _, f := range []string{"add64.circ", "sub64.circ", "mul64.circ", "div64.circ"} {
+			data, err := os.ReadFile(repo + "/pkg/math/" + f)
+			if err != nil || os.WriteFile(dir+"/"+f, data, 0644) != nil {
+				ok = false
+			}
+		}
+		if ok {
+			c05SourceFile = dir + "/prog.mpcl"
+			streamSourceName = c05SourceFile
+			for _, src := range c05NativeTemplates {
+				for k := 0; k < 2; k++ {
+					res := &Result{Case: idx, Nontrivial: true}
+					xv := []string{fmt.Sprintf("0x%016x", rng.Uint64())}
+					yv := []string{fmt.Sprintf("0x%016x", rng.Uint64()|1)}
+					c05OneV(res, src, xv, yv, nil, uint64(seed())<<32+uint64(idx))
+					if res.Class == "compared" {
+						res.Class = "native-template"
+					} else if res.Class == "rejected" {
+						res.drift("native-circuit template does not compile: %v\n%s", res.Sample, src)
+					}
+					if len(res.Viol) > 0 {
+						res.Sample = src
+					}
+					idx++
+					out.put(res)
+				}
+			}
+			c05SourceFile, streamSourceName = "", "{verif}"
+		}
+		os.RemoveAll(dir)
 	}
 	for li, src := range pgLivenessPrograms() {
 		bits := 8
